@@ -42,7 +42,7 @@ STUB_SUBPROCESS = ('process_executor.subprocess -> recorder (contract: subproces
 STUB_SINK = 'text sink with write() (append-only) standing in for the text file that StringSourceContents.write_to fills'
 STUB_INT = 'python_evaluate -> placeholder table (the integer literal K0 denotes the symbolic integer k0)'
 STUB_SANDBOX = 'deterministic sandbox directory under a scratch dir (exactly_lib configuration hook sandbox_root_dir_resolver)'
-STUB_SYMBOLS = ('string symbols S0..S2 with symbolic values, entered into the symbol table as `def string` would '
+STUB_SYMBOLS = ('string symbols S0..S3 with symbolic values, entered into the symbol table as `def string` would '
                 '(SymbolContainer of a constant StringSdv)')
 
 MAXLEN = 6  # bound on the length of every symbolic string (they are never inspected by the code under test)
@@ -265,7 +265,7 @@ def _k2_environment(symbols):
         symbols, 2 ** 10)
 
 
-def _k2_real(case: K2Case, s0, s1, s2):
+def _k2_real(case: K2Case, s0, s1, s2, s3):
     """text -> (Executable, stdin text or None, transformed probe text)  by REAL code only."""
     from exactly_lib.impls.actors.program.execution import Executor
     from exactly_lib.impls.actors.program.parse import Parser
@@ -279,7 +279,8 @@ def _k2_real(case: K2Case, s0, s1, s2):
     from exactly_lib.util.symbol_table import SymbolTable
 
     tc = L.parse_case(case.text())
-    symbols = SymbolTable({'S0': L.string_symbol(s0), 'S1': L.string_symbol(s1), 'S2': L.string_symbol(s2)})
+    symbols = SymbolTable({'S0': L.string_symbol(s0), 'S1': L.string_symbol(s1), 'S2': L.string_symbol(s2),
+                           'S3': L.string_symbol(s3)})
     env = _k2_environment(symbols)
     os_services = os_services_access.new_for_current_os()
     settings_builder = SetupSettingsBuilder.new_empty()
@@ -313,8 +314,16 @@ def _k2_cases(tier: str) -> List[K2Case]:
     def add(name, main, defs=(), act_stdin=None):
         cs.append(K2Case(name, main, defs, act_stdin))
 
-    # ---- every argument form, one at a time, for a system program
-    for a in sp.A:
+    # ---- argument forms.  Literal forms in groups (each with one symbolic argument riding along),
+    #      forms with symbol references one at a time
+    add('args/quoting', Pgm('sys', 'prog', ['plain', 'empty-sq', 'empty-dq', 'spaces', 'sq-in-dq', 'dq-in-sq', 'sym']))
+    add('args/option-like-and-reserved', Pgm('sys', 'prog', ['option', 'long-option', 'stdin-like', 'reserved-colon',
+                                                             'reserved-paren', 'reserved-and', 'equals-sign', 'sym1']))
+    add('args/shell-meta-and-non-references', Pgm('sys', 'prog', ['glob', 'dollar', 'sym-hard-quoted',
+                                                                  'symbol-name-only', 'sym']))
+    add('args/paths', Pgm('sys', 'prog', ['path', 'path-in-dq', 'existing-file', 'existing-dir', 'existing-path',
+                                          'empty-list', 'sym1']))
+    for a in ('sym', 'sym1', 'sym-in-dq', 'sym-concat', 'sym-twice', 'list', 'list-in-dq', 'list-concat', 'rest'):
         add('arg/' + a, Pgm('sys', 'prog', [a]))
     # ---- argument lists
     add('args/none', Pgm('sys', 'prog'))
@@ -332,43 +341,48 @@ def _k2_cases(tier: str) -> List[K2Case]:
     for t in sp.PURE_TEXT_SOURCES:
         add('stdin/pgm-' + t, Pgm('sys', 'prog', ['plain'], stdin=t))
         add('stdin/setup-' + t, Pgm('sys', 'prog', ['plain']), act_stdin=t)
-    add('stdin/pgm+setup', Pgm('sys', 'prog', ['sym'], stdin='string'), act_stdin='sym')
+    add('stdin/pgm+setup', Pgm('sys', 'prog', ['sym'], stdin='string'), act_stdin='sym3')
+    add('stdin/pgm+setup-same', Pgm('sys', 'prog', [], stdin='sym'), act_stdin='sym')
     add('stdin/pgm+setup-heredocs', Pgm('sys', 'prog', [], stdin='here-doc'), act_stdin='here-doc')
     # ---- transformations
-    add('trans/one', Pgm('sys', 'prog', ['plain'], trans='upper'))
+    add('trans/one', Pgm('sys', 'prog', ['sym'], trans='upper'))
     # ---- chains of program symbols
     base = Pgm('sys', 'base', ['plain', 'sym'], stdin='string')
     add('chain/1', Pgm('ref', 'P1', ['sym1']), [('P1', base)])
     add('chain/1-noargs', Pgm('ref', 'P1'), [('P1', base)])
-    add('chain/1-stdin', Pgm('ref', 'P1', ['sym1'], stdin='sym'), [('P1', base)], act_stdin='here-doc')
-    add('chain/2', Pgm('ref', 'P2', ['sym2'], stdin='sym'),
-        [('P1', base), ('P2', Pgm('ref', 'P1', ['list'], stdin='here-doc'))], act_stdin='string-sq')
+    add('chain/1-stdin', Pgm('ref', 'P1', ['plain2'], stdin='sym3'), [('P1', base)], act_stdin='string-sq')
+    add('chain/2-args', Pgm('ref', 'P2', ['sym', 'plain2']),
+        [('P1', Pgm('sys', 'base', ['sym1', 'plain'])), ('P2', Pgm('ref', 'P1', ['list']))])
+    add('chain/2-stdin', Pgm('ref', 'P2', [], stdin='sym'),
+        [('P1', Pgm('sys', 'base', [], stdin='sym3')), ('P2', Pgm('ref', 'P1', ['plain'], stdin='here-doc'))],
+        act_stdin='string')
     add('chain/2-trans', Pgm('ref', 'P2', ['plain2'], trans='strip'),
         [('P1', Pgm('sys', 'base', ['sym'], trans='upper')), ('P2', Pgm('ref', 'P1', ['sym1'], trans='replace'))])
     add('chain/2-trans-rev', Pgm('ref', 'P2', ['plain2']),
         [('P1', Pgm('sys', 'base', ['sym'], trans='replace')), ('P2', Pgm('ref', 'P1', ['sym1'], trans='upper'))])
     add('chain/shell', Pgm('ref', 'P1', ['sym1', 'spaces']),
         [('P1', Pgm('shell', 'echo @[S0]@ x', head_value=[sp.C('echo '), sp.S(0), sp.C(' x')]))])
-    add('chain/shell-2', Pgm('ref', 'P2', ['sym2']),
+    add('chain/shell-2', Pgm('ref', 'P2', ['sym1']),
         [('P1', Pgm('shell', 'sh -c', head_value=[sp.C('sh -c')])), ('P2', Pgm('ref', 'P1', ['sym', 'empty-sq']))])
     add('chain/file', Pgm('ref', 'P1', ['sym1']), [('P1', Pgm('file', 'exe', ['existing-file']))])
     add('chain/python', Pgm('ref', 'P1', ['sym1'], parens=True), [('P1', Pgm('python', '', ['option']))])
-    add('chain/shadow-order', Pgm('ref', 'P2', ['plain']),
-        [('P1', Pgm('sys', 'one', ['sym'])), ('P2', Pgm('ref', 'P1', ['sym1'])), ('P3', Pgm('ref', 'P2', ['sym2']))])
+    add('chain/unused-later-definition', Pgm('ref', 'P2', ['plain']),
+        [('P1', Pgm('sys', 'one', ['sym'])), ('P2', Pgm('ref', 'P1', ['sym1'])), ('P3', Pgm('ref', 'P2', ['plain2']))])
+    add('chain/3', Pgm('ref', 'P3', ['sym1']),
+        [('P1', Pgm('sys', 'base', ['plain'], stdin='sym')), ('P2', Pgm('ref', 'P1', ['sym'], trans='upper')),
+         ('P3', Pgm('ref', 'P2', ['plain2'], stdin='string-sq'))], act_stdin='sym3')
     if tier == 'thorough':
-        add('chain/3', Pgm('ref', 'P3', ['sym2', 'rest'], stdin='string', trans='strip'),
+        for a in sp.A:
+            add('arg1/' + a, Pgm('ref', 'P1', [a]), [('P1', Pgm('sys', 'b', [a]))])
+        add('chain/3-full', Pgm('ref', 'P3', ['sym1', 'rest'], stdin='string', trans='strip'),
             [('P1', Pgm('sys', 'base', ['list'], stdin='here-doc', trans=None)),
              ('P2', Pgm('ref', 'P1', ['sym', 'sym-in-dq'], trans='upper')),
-             ('P3', Pgm('ref', 'P2', ['path', 'sym1'], stdin='sym'))], act_stdin='sym')
+             ('P3', Pgm('ref', 'P2', ['path', 'sym1'], stdin='sym'))], act_stdin='sym3')
         add('chain/4', Pgm('ref', 'P4', ['sym']),
-            [('P1', Pgm('shell', 'c @[S2]@', head_value=[sp.C('c '), sp.S(2)])),
+            [('P1', Pgm('shell', 'c @[S1]@', head_value=[sp.C('c '), sp.S(1)])),
              ('P2', Pgm('ref', 'P1', ['sym'], stdin='sym')),
              ('P3', Pgm('ref', 'P2', ['sym1'], stdin='string')),
-             ('P4', Pgm('ref', 'P3', ['sym2'], stdin='here-doc'))], act_stdin='string')
-        names = list(sp.A)
-        for i in range(0, len(names) - 1, 3):
-            grp = [n for n in names[i:i + 3] if n != 'rest']
-            add('args/triple-%d' % i, Pgm('ref', 'P1', grp), [('P1', Pgm('sys', 'b', list(reversed(grp))))])
+             ('P4', Pgm('ref', 'P3', ['plain'], stdin='here-doc'))], act_stdin='sym3')
         for t in sp.PURE_TEXT_SOURCES:
             for u in sp.PURE_TEXT_SOURCES:
                 add('stdin/%s+%s' % (t, u), Pgm('sys', 'prog', [], stdin=t), act_stdin=u)
@@ -385,19 +399,23 @@ def _k2_case(name: str) -> K2Case:
     return _K2[name]
 
 
-def _pre_k2(s0, s1, s2) -> bool:
-    return _short(s0, s1, s2)
+def _pre_k2(s0, s1, s2, s3) -> bool:
+    used = _k2_case(ob.case()['scenario']).text()
+    for i, s in enumerate((s0, s1, s2, s3)):
+        if ('@[S%d]@' % i) not in used and ('@[L]@' not in used or i > 1) and s != '':
+            return False  # a symbol the text does not reference: no need to vary it
+    return _short(s0, s1, s2, s3)
 
 
-def k2_denote(s0: str, s1: str, s2: str) -> bool:
+def k2_denote(s0: str, s1: str, s2: str, s3: str) -> bool:
     """
-    pre: _pre_k2(s0, s1, s2)
+    pre: _pre_k2(s0, s1, s2, s3)
     post: _
     """
     case = _k2_case(ob.case()['scenario'])
-    executable, stdin_text, transformed, is_identity = _k2_real(case, s0, s1, s2)
+    executable, stdin_text, transformed, is_identity = _k2_real(case, s0, s1, s2, s3)
     # ---- reference denotation
-    env = sp.Env([s0, s1, s2], act=SDS_K2 + '/act', hds=HDS_K2)
+    env = sp.Env([s0, s1, s2, s3], act=SDS_K2 + '/act', hds=HDS_K2)
     defs = dict(case.defs)
     d = sp.denote(case.main, defs)
     bug = ob.case().get('oracle_bug')
@@ -727,14 +745,16 @@ def _source_text() -> str:
 
 
 S2_K3 = 'the value of S2\n'
+S3_K3 = 'S3 "value"'
 
 
 def _run_whole(case: K3Case, s0, s1, atc_child: L.Child, run_children=None, text=None, setup_stdin_first=False):
-    roles = [p.role for p in case.procs(sp.Env(['', '', '']), '')]
+    roles = [p.role for p in case.procs(sp.Env(['', '', '', '']), '')]
     rec = L.Recorder(_behaviour(roles, atc_child, run_children))
-    predefined = {'S0': L.string_symbol(s0), 'S1': L.string_symbol(s1), 'S2': L.string_symbol(S2_K3)}
+    predefined = {'S0': L.string_symbol(s0), 'S1': L.string_symbol(s1), 'S2': L.string_symbol(S2_K3),
+                  'S3': L.string_symbol(S3_K3)}
     run = L.run_case(text if text is not None else case.text(), rec, predefined, HDS_FILES)
-    env = sp.Env([s0, s1, S2_K3], act=run.act_dir if run.sds_root else '', hds=run.hds)
+    env = sp.Env([s0, s1, S2_K3, S3_K3], act=run.act_dir if run.sds_root else '', hds=run.hds)
     expected = case.procs(env, _expected_cwd(run, case) if run.sds_root else '', setup_stdin_first)
     return run, expected
 
@@ -958,21 +978,22 @@ def obligations(tier: str) -> List[Ob]:
                   bound='seeded oracle error: negative exit codes expected to be reported as 0', timeout=120,
                   expect=ob.REFUTE, real=REAL_K1, stubs=(STUB_SUBPROCESS,)))
     # ---- K2
+    m2 = 2 if tier == 'quick' else 3
     for c in _k2_cases(tier):
         obs.append(Ob(
-            name='K2:' + c.name, fn='k2_denote', case=dict(scenario=c.name), kernel='K2',
-            bound='program text %r (after the definitions of L, P, E%s%s): every value of S0, S1, S2 of <= %d characters '
+            name='K2:' + c.name, fn='k2_denote', case=dict(scenario=c.name, maxlen=m2), kernel='K2',
+            bound='program text %r (after the definitions of L, P, E%s%s): every value of S0, S1, S2, S3 of <= %d characters '
                   '(any characters)' % (c.main.text(), ''.join(', %s = %s' % (n, p.text()) for n, p in c.defs),
-                                        '' if c.act_stdin is None else ', [setup] stdin = ' + sp.T[c.act_stdin][0], MAXLEN),
-            timeout=240, real=REAL_K2, stubs=(STUB_SYMBOLS, STUB_SINK),
+                                        '' if c.act_stdin is None else ', [setup] stdin = ' + sp.T[c.act_stdin][0], m2),
+            timeout=300, real=REAL_K2, stubs=(STUB_SYMBOLS, STUB_SINK),
             outside=('validation of the program (existence of files) - C03', 'the file / process layer below write_to - C14'),
             entry='test-case text -> parser -> def / stdin instructions -> command-line actor parser -> Program'))
     obs.append(Ob(name='K2:seeded-act-stdin-first', fn='k2_denote',
-                  case=dict(scenario='chain/1-stdin', oracle_bug='act-stdin-first'), kernel='K2',
+                  case=dict(scenario='chain/1-stdin', maxlen=2, oracle_bug='act-stdin-first'), kernel='K2',
                   bound='seeded oracle error: [setup] stdin expected before the stdin of the program', timeout=120,
                   expect=ob.REFUTE, real=REAL_K2, stubs=(STUB_SYMBOLS, STUB_SINK)))
     obs.append(Ob(name='K2:seeded-args-reversed', fn='k2_denote',
-                  case=dict(scenario='chain/2', oracle_bug='args-reversed-layers'), kernel='K2',
+                  case=dict(scenario='chain/2-args', maxlen=2, oracle_bug='args-reversed-layers'), kernel='K2',
                   bound='seeded oracle error: accumulated arguments expected in reverse order', timeout=120,
                   expect=ob.REFUTE, real=REAL_K2, stubs=(STUB_SYMBOLS, STUB_SINK)))
     # ---- K3
